@@ -2,6 +2,7 @@ package parser
 
 import (
 	"bufio"
+	"bytes"
 	"io"
 	"strings"
 
@@ -98,11 +99,11 @@ func (r *ContentReader) parseComments() {
 					{
 						Line:        r.lineno,
 						FirstColumn: comment.Offset + 1,
-						LastColumn:  len(r.buf) - 1,
+						LastColumn:  len(bytes.TrimRight(r.buf, "\r\n")),
 					},
 				},
 				FirstColumn: comment.Offset + 1,
-				LastColumn:  len(r.buf) - 1,
+				LastColumn:  len(bytes.TrimRight(r.buf, "\r\n")),
 			})
 		case comments.IgnoreLineType:
 			skip = skipCurrentLine
